@@ -411,8 +411,8 @@ package graphql
 //@   nosafety
 //@   loop 1 ensures forall j in 0..len(objectField.Args): (exists i in 0..len(ifaceField.Args): ifaceField.Args[i].PrivateName == objectField.Args[j].PrivateName) || !typeis(objectField.Args[j].Type, "*graphql.NonNull")
 //@   loop 1 ensures objectField != nil && isTypeSubTypeOf_0(schema, objectField.Type, ifaceField.Type)
-//@   loop 3 invariant forall j in 0..rangeindex+1: (exists i in 0..len(ifaceField.Args): ifaceField.Args[i].PrivateName == objectField.Args[j].PrivateName) || !typeis(objectField.Args[j].Type, "*graphql.NonNull")
-//@   loop 4 invariant ifaceArg == nil ==> forall i in 0..rangeindex+1: !(ifaceField.Args[i].PrivateName == argName)
+//@   loop 4 invariant forall j in 0..rangeindex+1: (exists i in 0..len(ifaceField.Args): ifaceField.Args[i].PrivateName == objectField.Args[j].PrivateName) || !typeis(objectField.Args[j].Type, "*graphql.NonNull")
+//@   loop 5 invariant ifaceArg == nil ==> forall i in 0..rangeindex+1: !(ifaceField.Args[i].PrivateName == argName)
 
 //@ func Schema.AppendType
 //@   props C11 C10
